@@ -172,6 +172,10 @@ pub struct MacroDefinition {
     block: Vec<Token>,
 }
 
+/// The segment that untaken branches are emitted into during analysis. A string literal cannot contain braces, so no
+/// segment of the user's can have this name and the two cannot get in each other's way.
+const DUMMY_SEGMENT: &str = "{dummy}";
+
 pub struct CodegenContext {
     tree: Arc<ParseTree>,
     options: CodegenOptions,
@@ -1351,14 +1355,14 @@ impl CodegenContext {
         let prev_segment = self.current_segment.clone();
         if self.dummy_segment_depth == 0 {
             self.segments
-                .insert("$dummy".into(), Segment::new(SegmentOptions::default()));
+                .insert(DUMMY_SEGMENT.into(), Segment::new(SegmentOptions::default()));
         }
         self.dummy_segment_depth += 1;
-        self.current_segment = Some(Identifier::new("$dummy"));
+        self.current_segment = Some(Identifier::new(DUMMY_SEGMENT));
         let result = f(self);
         self.dummy_segment_depth -= 1;
         if self.dummy_segment_depth == 0 {
-            self.segments.remove(&Identifier::new("$dummy"));
+            self.segments.remove(&Identifier::new(DUMMY_SEGMENT));
         }
         self.current_segment = prev_segment;
         result
